@@ -209,7 +209,15 @@ func (b *Body) callSiteClauses(key string, c *ssa.CallCommon, sig *types.Signatu
 	if ft.con == nil {
 		return
 	}
-	for _, cl := range ft.con.Calls {
+	clauses := ft.con.Calls
+	if !ft.rg {
+		for _, cl := range ft.e.contracts.EveryCall {
+			if cl.Callee == key && len(unionTags(nil, cl.Tags)) > 0 && sharesTag(cl.Tags, ft.allTags()) {
+				clauses = append(append([]*Clause{}, clauses...), cl)
+			}
+		}
+	}
+	for _, cl := range clauses {
 		if cl.Callee != key {
 			continue
 		}
@@ -982,4 +990,15 @@ func (b *Body) guarantee(key string, pre, post State, reach *T, pos token.Pos) {
 		name += fmt.Sprintf("#%d", ft.count(name))
 		ft.oblige(&Obligation{Name: name, Kind: "callsite", Tags: unionTags(cl.Tags, ft.allTags()), Guard: reach, Goal: g, Src: "rely " + cl.Src, Pos: ft.pos(pos)})
 	}
+}
+
+func sharesTag(a, b []string) bool {
+	for _, x := range a {
+		for _, y := range b {
+			if x == y {
+				return true
+			}
+		}
+	}
+	return false
 }
